@@ -3,6 +3,8 @@ CONSTANTS
   MinN = 0
   MaxN = 5
   TwinMaxN = 4
+  GeoMaxN = 4
+  GeoFilter = "none"
   RetMaxN = 4
   TruthTest = "truthy"
 CONSTRAINT Export
